@@ -56,7 +56,7 @@ def check(tier):
         return n
 
     # (1) E2 spaces under the sanitizers (every transition's process exits normally so that LeakSanitizer runs)
-    spaces = [("c16" if tier == "thorough" else "c12", None), ("c17", None)] + [("c11", s) for s in (["radiation_integrated_intensity", "cp_normal", "euler_1d"] if tier == "quick" else ["radiation_integrated_intensity", "cp_normal", "euler_1d", "navierstokes_4d_compressible_powerlaw", "fans_sa_steady_wall_bounded", "sod_1d", "navierstokes_ablation_1d_steady", "heateq_3d_unsteady_var"])]
+    spaces = [("c16" if tier == "thorough" else "c12", None), ("c12h", None), ("c17", None)] + [("c11", s) for s in (["radiation_integrated_intensity", "cp_normal", "euler_1d"] if tier == "quick" else ["radiation_integrated_intensity", "cp_normal", "euler_1d", "navierstokes_4d_compressible_powerlaw", "fans_sa_steady_wall_bounded", "sod_1d", "navierstokes_ablation_1d_steady", "heateq_3d_unsteady_var"])]
     results = []
     for sp, sol in spaces:
         out = os.path.join(b.dir, "%s_%s.out" % (sp, sol or "x"))
